@@ -9,9 +9,12 @@ are exact (ORD-2, shared with C09).
 NOT decided: the if-and-only-if semantics of the remaining rules on arbitrary documents, message texts.
 """
 import ast
+import re
 
 from .. import analysis
-from ..astutil import calls_in, call_name, where, kw
+from ..cfg import build_cfg
+from ..symtext import Expander, effect_calls
+from ..astutil import atoms_at, value_cases, calls_in, call_name, where, kw
 from ..cfg import build_cfg, enclosing_handlers
 from ..facts import readable_attrs
 from ..fold import Folder
@@ -234,25 +237,28 @@ def run(prog, rep):
                        "self.obj.itersections(recursive=True) validate(section) and validate(each of section.properties)")
     rv = vcls.lookup_method("run_validation")
     me = rv.params[0]
-    loops = [n for n in walk_no_nested(rv.node) if isinstance(n, ast.For)]
-    outer = [n for n in loops if isinstance(n.iter, ast.Call) and call_name(n.iter) == "%s.obj.itersections" % me]
-    ok = len(outer) == 1
+    vcalls = [e for e in effect_calls(prog, rv, lambda c: True) if unparse(e.call.func) == "%s.validate" % me and len(e.call.args) == 1]
+    targets = [unparse(e.call.args[0]) for e in vcalls]
+    secs = [t for t in targets if re.match(r"^EACH\(%s\.obj\.itersections\((.*)\)\)$" % re.escape(me), t)]
+    ok = len(secs) == 1
     if ok:
-        lp = outer[0]
-        v = unparse(lp.target)
-        calls = [unparse(c) for c in calls_in(lp) if call_name(c) == "%s.validate" % me]
-        inner = [n for n in ast.walk(lp) if isinstance(n, ast.For) and n is not lp and unparse(n.iter) in ("%s.properties" % v, "%s.props" % v)]
-        ok = "%s.validate(%s)" % (me, v) in calls and len(inner) == 1 and "%s.validate(%s)" % (me, unparse(inner[0].target)) in calls \
-            and not any(k.arg == "max_depth" for k in lp.iter.keywords) and not any(isinstance(x, (ast.Break, ast.Continue)) for x in ast.walk(lp))
-    rep.check(ok, "WALK-2", "run_validation visits every Section and Property", "ok",
-              "run_validation does not validate every Section of itersections() and every Property of each", rv.where,
+        m = re.match(r"^EACH\(%s\.obj\.itersections\((.*)\)\)$" % re.escape(me), secs[0])
+        ok = "max_depth" not in m.group(1) and "filter_func" not in m.group(1) and \
+            any(t in ("EACH(%s.properties)" % secs[0], "EACH(%s.props)" % secs[0], "EACH(%s._props)" % secs[0]) for t in targets)
+    esc = [x for x in walk_no_nested(rv.node) if isinstance(x, (ast.Break, ast.Continue))]
+    rep.check(ok and not esc, "WALK-2", "run_validation visits every Section and Property", "ok",
+              "run_validation does not validate every Section of itersections() and every Property of each: validates %s" % targets, rv.where,
               witness="issues deeper in the tree are not reported")
-    first = [c for c in calls_in(rv.node) if call_name(c) == "%s.validate" % me and unparse(c.args[0]) == "%s.obj" % me]
-    rep.check(len(first) == 1, "WALK-2", "run_validation validates the object itself", "ok", "the validated object itself is not validated", rv.where)
+    first = [e for e in vcalls if unparse(e.call.args[0]) == "%s.obj" % me]
+    g = build_cfg(rv)
+    rep.check(len(first) == 1 and all(g.dominates(first[0].node, p0) for _, p0 in g.exit.pred), "WALK-2", "run_validation validates the object itself", "ok",
+              "the validated object itself is not validated on every path", rv.where)
     val = vcls.lookup_method("validate")
-    txt = unparse(val.node)
-    rep.check("self._handlers.get(obj.format().name" in txt and "self.error(" in txt, "WALK-2", "validate() runs the handlers of the object's kind", "ok",
-              "validate() no longer selects handlers by obj.format().name and records what they yield", val.where)
+    vme, vobj = val.params[0], val.params[1]
+    recs = [unparse(e.call) for e in effect_calls(prog, val, lambda c: True) if unparse(e.call.func) == "%s.error" % vme]
+    want = "%s.error(EACH(EACH(%s._handlers.get(%s.format().name, []))(%s)))" % (vme, vme, vobj, vobj)
+    rep.check(want in recs, "WALK-2", "validate() runs the handlers of the object's kind", "ok",
+              "validate() no longer selects handlers by obj.format().name and records what they yield: %s" % recs, val.where)
 
     # ----------------------------------------------------------------- ORD-2
     cardinality_validation_rule(prog, rep)
@@ -275,8 +281,14 @@ def acc1_rule(prog, rep, S):
         g = S.cfg(f)
         for st in rebinds:
             node = [n for n in g.nodes if n.ast is st][0]
-            conds = [(unparse(t), pol) for t, pol, _ in g.dominating_conditions(node)]
-            ok = isinstance(st.value, ast.Dict) and not st.value.keys and (("not id_map", "true") in conds or ("id_map is None", "true") in conds)
+            conds = [(t, p) for t, p, _ in atoms_at(g, node)]
+            ok = True
+            for expr, extra in value_cases(st.value):
+                known_atoms = conds + list(extra)
+                if isinstance(expr, ast.Name) and expr.id == "id_map":
+                    continue            # keeps the map that was handed in
+                fresh = (isinstance(expr, ast.Dict) and not expr.keys) or (isinstance(expr, ast.Call) and call_name(expr) == "dict" and not expr.args)
+                ok = ok and fresh and (("id_map", False) in known_atoms or ("id_map is None", True) in known_atoms)
             rep.check(ok, "ACC-1", "%s: id_map = %s" % (name, unparse(st.value)[:30]), "fresh map only when none was handed in",
                       "%s re-binds id_map to `%s` (guards %s): ids collected in a sub-tree are forgotten when the traversal returns"
                       % (name, unparse(st.value)[:40], conds), where(f, st),
